@@ -136,7 +136,7 @@ pub fn create_regexp_constructor(interp: &mut Interpreter) -> Gc<JsObject> {
     interp
         .regexp_prototype
         .borrow_mut()
-        .set_property(constructor_key, JsValue::Object(constructor.clone()));
+        .define_builtin_property(constructor_key, JsValue::Object(constructor.clone()));
 
     // Add Symbol.species getter
     interp.register_species_getter(&constructor);
